@@ -30,4 +30,24 @@ META["C05"] = dict(
         "visit range ends and the payload/header boundary.",
    technique="TLA+ spec (Padding.tla acceptor) + TLC exhaustive MC of generator==acceptor + forced-draw replay + TLC trace validation",
    design_ref="DESIGN.md 3/C05")
+META["C01"] = dict(
+   text="Mux.tla states the observable rules of a flow (one direction of one incarnation of a stream id) over position-coded bytes: "
+        "a read returns the next bytes of its own flow, never more than was submitted, 0 bytes only at the end, and at quiescence "
+        "everything submitted has been delivered. MC_Mux, an implementation-shaped model of the receive task, the receive table, "
+        "per-incarnation channels and the reader's carry buffer, is model-checked exhaustively against these rules for 2 ids x 2 "
+        "incarnations, chunk lengths 0..2, reader capacities {1,9}, 5/6 frames, all interleavings (plus a liveness config and three "
+        "deviation configs that must fail). TLC-simulated behaviours of that model and random scripts are replayed against real "
+        "Sessions of both roles over a fragmenting in-memory transport, a real client/server pair moves up to 1.5 MB over 1-5 "
+        "streams with concurrent writers, chunk sizes 0..131072 and transport read sizes/capacities down to 1 byte; every read of "
+        "every reader is validated by Trace_Mux.tla.",
+   technique="TLA+ spec (Mux.tla) + TLC MC of implementation-shaped model + TLC-simulated behaviours replayed into Session + TLC trace validation",
+   design_ref="DESIGN.md 3/C01")
+META["C02"] = dict(
+   text="Same specification and runs as C01. Here the verdict is isolation: the validator owns the incarnation counters and decides "
+        "itself which peer frames are stray (PSH/FIN for ids that are unknown, not yet opened, already finished; ids reused after "
+        "FIN); it rejects any read whose bytes belong to another flow, any data or end-of-stream on a flow whose writer did not "
+        "cause it, and stream tables that do not hold exactly the open ids after each quiescence point. MC_Mux proves OriginIsOwn "
+        "for every arrival order at small scale; the deviation StrayRoutedToLast must be caught.",
+   technique="TLA+ spec (Mux.tla incarnations) + TLC MC + scripted-peer replay of TLC behaviours + TLC trace validation",
+   design_ref="DESIGN.md 3/C02")
 NOT_YET = "check not built yet in this round (planned: DESIGN.md section 3); not claimed"
